@@ -28,8 +28,10 @@ package main
 // Oracle (independent of the code under test): the harness keeps its own record of the committed block tree
 // T (hash -> parent, writes; the first effective commit of a hash wins) and of the pending writes of every block /
 // transaction cache. The expected answer of a lookup is the first entry for the key in: the context's own pending
-// writes (transaction, then its block), [the block's own committed writes when the context's block cache has been
-// committed], then the chain hash, parent(hash), ... through T where a block that is not in T ends the chain.
+// writes (transaction, then its block), then the chain hash, parent(hash), ... through T where a block that is not in
+// T ends the chain; for a block cache the chain starts at its parent, or at the block itself once that block is in T
+// (literal reading: the block's own committed writes are on its chain — the code answers from the parent's view
+// instead, open finding C06-blockcache-after-commit).
 // C06: a hit must carry exactly that value (hit on a tombstone or on "nothing" is a failure); misses are allowed.
 
 import (
@@ -255,12 +257,15 @@ func (w *scWorld) expectBlock(b *scBH, key string) scExpect {
 	if e, ok := b.pending[key]; ok {
 		return scExpect{e: e, found: true, src: "blk"}
 	}
-	if b.effective {
-		if blk := w.T[b.hash]; blk != nil {
-			if e, ok := blk.writes[key]; ok {
-				return scExpect{e: e, found: true, src: "own-committed", postCommit: true}
-			}
+	if _, committed := w.T[b.hash]; committed {
+		// literal reading of the property: the block of this block cache is itself committed (by this handle or by a
+		// second block cache for the same hash), so its own committed writes are on the context's chain
+		x := w.expectState(key, b.hash)
+		x.postCommit = true
+		if x.src == "chain" && x.dist == 0 {
+			x.src = "own-committed"
 		}
+		return x
 	}
 	x := w.expectState(key, b.prev)
 	x.dist++
